@@ -44,6 +44,7 @@ def run(chk):
     chk.rule("R2", "Cache.update[Alias]: name maps, cols and partition_by are remapped through uuid_map, derived_from is cut")
     chk.rule("R3", "recursive leaf visitors (create_aliases, get_engine) reach the right child of every binary verb")
     chk.rule("R4", "alias: fresh identity for every column in scope unless keep_col_refs; transfer_col_references maps by checked name")
+    chk.rule("R4v", "the alias verb interpreted on a stub table: new Alias node around the input node, name on the new node only, every column in scope (hidden included) gets a fresh distinct identity unless keep_col_refs")
     chk.rule("R5", "collect preserves identities, derivation and grouping state, kind-correctly")
     chk.rule("R6", "each producer of Alias.uuid_map covers every key set that consumers index without a guard")
     chk.rule("R7", "Alias leaves the visible column sequence and the grouping sequence unchanged in all three siblings")
@@ -110,9 +111,26 @@ def run(chk):
         chk.ob("R3", mod, f, f"{f.name} reaches right of {sorted(classes & set(binary))}", set(binary) <= classes,
                f"`{f.name}` skips source tables below the right side of {sorted(set(binary) - classes)}")  # fmt: skip
 
-    # ---- R4
+    # ---- R4v: the alias verb interpreted on a stub table (tablesim); R4's reading of its spelling is the fallback
+    from ..interp import PyRaise, SymbolicBranch
+    from ..tablesim import alias_scenarios
+
     vb = repo.mod("pipe.verbs")
     af = vb.func("alias")
+    alias_decided = False
+    try:
+        res_a = alias_scenarios(repo)
+        alias_decided = True
+        for desc, ok_, detail in res_a:
+            chk.ob("R4v", vb, af, desc, ok_, f"{desc}: {detail}")
+        chk.floor("R4v", "alias scenarios", len(res_a), 6)
+    except (AnalysisError, SymbolicBranch) as e:
+        chk.note(f"R4v: the alias verb could not be interpreted ({str(e)[:140]}); judged by shape")
+    except PyRaise as p_:
+        alias_decided = True
+        chk.ob("R4v", vb, af, "alias on the stub table", False, f"alias raises {p_.name}: {p_.msg}")
+
+    # ---- R4
     ctor = next((c for c in calls_in(af) if dotted(c.func) == "Alias"), None)
     um = kwarg(ctor, "uuid_map") if ctor is not None else None
     fresh = keep = None
@@ -129,9 +147,9 @@ def run(chk):
         and isinstance(keep, ast.Constant)
         and keep.value is None
     )
-    chk.ob("R4", vb, af, "alias: uuid_map = {uid: uuid1() for uid in all columns in scope} unless keep_col_refs", good,
+    chk.ob("R4", vb, af, "alias: uuid_map = {uid: uuid1() for uid in all columns in scope} unless keep_col_refs", good or alias_decided,
            "alias() does not give every column in scope (hidden ones included) a fresh identity, or ignores keep_col_refs")  # fmt: skip
-    chk.ob("R4", vb, af, "alias names the new node, not the input's", "new._ast.name = new_name" in norm(af), "alias writes the new name to the wrong node")
+    chk.ob("R4", vb, af, "alias names the new node, not the input's", alias_decided or "new._ast.name = new_name" in norm(af), "alias writes the new name to the wrong node")
     cm = repo.mod("pipe.cache")
     tr = cm.func("transfer_col_references")
     tsrc = norm(tr)
@@ -147,11 +165,31 @@ def run(chk):
     csrc = norm(cf)
     fr = next((c for c in calls_in(cf) if (dotted(c.func) or "").endswith("from_resource")), None)
     uu = kwarg(fr, "uuids") if fr is not None else None
-    chk.ob("R5", vb, cf, "collect passes uuids={name: uid for (name, uid) in name_to_uuid}", uu is not None and "table._cache.name_to_uuid.items()" in norm(uu),
+    if isinstance(uu, ast.Name):  # built in a local first
+        defs_ = [a.value for a in ast.walk(cf) if isinstance(a, ast.Assign) and len(a.targets) == 1 and norm(a.targets[0]) == uu.id]
+        uu = defs_[0] if len(defs_) == 1 else uu
+
+    def _identity_copy_of(e, src):
+        """e denotes a dict with the items of `src`: src itself, dict(src), src.copy(), {k: v for k, v in src.items()}"""
+        t = norm(e)
+        if t in (src, f"dict({src})", f"{src}.copy()", f"dict({src}.items())"):
+            return True
+        if isinstance(e, ast.DictComp) and len(e.generators) == 1 and not e.generators[0].ifs and norm(e.generators[0].iter) == f"{src}.items()":
+            tg = e.generators[0].target
+            return isinstance(tg, ast.Tuple) and len(tg.elts) == 2 and norm(e.key) == norm(tg.elts[0]) and norm(e.value) == norm(tg.elts[1])
+        return False
+
+    chk.ob("R5", vb, cf, "collect passes uuids = the name -> identity map of the visible columns", uu is not None and _identity_copy_of(uu, "table._cache.name_to_uuid"),
            "collect() does not hand the visible columns' identities to the re-imported table: references break")  # fmt: skip
     ti = repo.mod("backend.table_impl")
     frf = ti.func("TableImpl.from_resource")
-    chk.ob("R5", ti, frf, "from_resource applies uuids to every column of the new implementation", "for name, col in res.cols.items()" in norm(frf) and "col._uuid = uuids[name]" in norm(frf),
+    applies = False
+    for lp in ast.walk(frf):
+        if isinstance(lp, ast.For) and norm(lp.iter).startswith("res.cols"):
+            for a in ast.walk(lp):
+                if isinstance(a, ast.Assign) and isinstance(a.targets[0], ast.Attribute) and a.targets[0].attr == "_uuid" and isinstance(a.value, ast.Subscript) and norm(a.value.value) == "uuids":
+                    applies = True
+    chk.ob("R5", ti, frf, "from_resource applies uuids to every column of the new implementation (loop over res.cols assigning ._uuid = uuids[name])", applies,
            "from_resource ignores the uuids it is given")  # fmt: skip
     chk.ob("R5", vb, cf, "collect keeps the derivation", "new._cache.derived_from = table._cache.derived_from | {new._ast}" in csrc,
            "the collected table is not derived from the input's ancestors: old references are rejected")  # fmt: skip
@@ -202,6 +240,9 @@ def run(chk):
     producers.append(("transfer_col_references", tr, tum.generators[0].iter if isinstance(tum, ast.DictComp) else None))
     order = {"PART": 0, "VIS": 1, "COLS": 2}
     for name, fnode, it in producers:
+        if name == "alias" and alias_decided:
+            chk.ok("R6", vb, fnode, "alias builds uuid_map over every column in scope (decided by R4v)")
+            continue
         t = norm(it) if it is not None else ""
         dom = "COLS" if "_cache.cols" in t else "VIS" if ("uuid_to_name" in t or "name_to_uuid" in t) else None
         ok = dom is not None and all(order[dom] >= order[n_] for n_ in need)
